@@ -170,7 +170,7 @@ func selfTags(c *Case, results ...Canon) []string {
 	if len(results) == 2 && varianceConditioning(c, results[0], results[1]) {
 		tags = append(tags, "variance-conditioning")
 	}
-	if len(results) == 2 && illConditionedWith(c, results[0], results[1], newImpl) {
+	if len(results) == 2 && (illConditionedWith(c, results[0], results[1], newImpl) || (valueOnlyDifference(results[0], results[1]) && cancellingSum(c))) {
 		tags = append(tags, "ill-conditioned")
 	}
 	if pinnedOutsideStepInvariant(c) {
